@@ -753,3 +753,133 @@ Proof.
     + apply (involves_replace (c_tab c) i r r' j k Hn (Hiff j Pj)). apply (Dj j Pj), Hi.
     + apply (Dj j Pj). apply (involves_replace (c_tab c) i r r' j k Hn (Hiff j Pj)), Hi.
 Qed.
+
+(* ---- the whole loop `for i in cost._where.pop(ix)` ---- *)
+Definition mid (ix : ix) (d : Z) (todo : list nat) (tab0 : list row) : list row :=
+  map (fun kr => if memb (fst kr) todo then snd kr else row_remove ix d (snd kr)) (enumerate tab0).
+
+Lemma nth_error_enumerate_from {A} (l : list A) : forall s k,
+  nth_error (combine (seq s (length l)) l) k = option_map (pair (s + k)%nat) (nth_error l k).
+Proof.
+  induction l as [|a l IH]; intros s k; cbn [length seq combine].
+  - destruct k; reflexivity.
+  - destruct k as [|k]; cbn [nth_error option_map].
+    + rewrite Nat.add_0_r. reflexivity.
+    + rewrite IH. replace (S s + k)%nat with (s + S k)%nat by lia. reflexivity.
+Qed.
+
+Lemma nth_error_mid ix d todo tab0 k :
+  nth_error (mid ix d todo tab0) k
+  = option_map (fun r => if memb k todo then r else row_remove ix d r) (nth_error tab0 k).
+Proof.
+  unfold mid, enumerate. rewrite nth_error_map, nth_error_enumerate_from.
+  destruct (nth_error tab0 k); reflexivity.
+Qed.
+
+Lemma mid_nil ix d tab0 : mid ix d [] tab0 = map (row_remove ix d) tab0.
+Proof.
+  apply nth_error_ext. intros k. rewrite nth_error_mid, nth_error_map.
+  destruct (nth_error tab0 k); reflexivity.
+Qed.
+
+Lemma remove_fold (P : ix -> Prop) ix sd tab0 :
+  sd_pos sd -> Forall (row_ok sd) tab0 -> (forall j, P j -> j <> ix) ->
+  forall todo c, NoDup todo ->
+    (forall i, In i todo -> involves tab0 ix i) ->
+    c_sd c = sd -> c_tab c = mid ix (zget ix sd) todo tab0 -> derived_on (c_tab c) P c ->
+    let c' := fold_left (remove_at ix (zget ix sd)) todo c in
+    c_tab c' = map (row_remove ix (zget ix sd)) tab0 /\ c_sd c' = sd /\ c_where c' = c_where c /\
+    c_nsl c' = c_nsl c /\ c_orig c' = c_orig c /\ derived_on (c_tab c') P c'.
+Proof.
+  intros Hpos Hrows HP. induction todo as [|i rest IH]; intros c ND Hinv Hsd Htab Hder; cbn [fold_left].
+  - rewrite Htab, mid_nil in *. split; [reflexivity|]. split; [exact Hsd|]. split; [reflexivity|].
+    split; [reflexivity|]. split; [reflexivity|]. exact Hder.
+  - inversion ND as [|? ? Hni ND']; subst.
+    destruct (Hinv i (or_introl eq_refl)) as (r & Hr & Hix).
+    assert (Hn : nth_error (c_tab c) i = Some r).
+    { rewrite Htab, nth_error_mid, Hr. cbn [option_map]. rewrite memb_cons, Nat.eqb_refl. reflexivity. }
+    assert (Hok : row_ok (c_sd c) r) by (rewrite Forall_forall in Hrows; apply Hrows, (nth_error_In _ _ Hr)).
+    pose proof (remove_at_step P ix c i r Hn Hok Hix Hpos HP Hder) as Hstep. cbn zeta in Hstep.
+    destruct Hstep as (T1 & S1 & W1 & N1 & O1 & D1).
+    set (c1 := remove_at ix (zget ix (c_sd c)) c i) in *.
+    assert (Htab1 : c_tab c1 = mid ix (zget ix (c_sd c)) rest tab0).
+    { rewrite T1, Htab. apply nth_error_ext. intros k.
+      rewrite <- Htab. rewrite (nth_error_replace_at (c_tab c) i r _ k Hn). rewrite Htab, !nth_error_mid.
+      destruct (Nat.eqb_spec k i) as [->|Hne].
+      - rewrite Hr. cbn [option_map]. assert (E : memb i rest = false) by (apply memb_false, Hni). rewrite E. reflexivity.
+      - rewrite memb_cons. destruct (Nat.eqb_spec k i); [contradiction|]. reflexivity. }
+    specialize (IH c1 ND' (fun k Hk => Hinv k (or_intror Hk)) S1 Htab1 D1). cbn zeta in IH.
+    destruct IH as (T2 & S2 & W2 & N2 & O2 & D2).
+    split; [exact T2|]. split; [exact S2|]. split; [congruence|]. split; [congruence|].
+    split; [congruence|]. exact D2.
+Qed.
+
+Lemma row_remove_notin ix d r : ~ In ix (r_inv r) -> row_remove ix d r = r.
+Proof. intros H. unfold row_remove. apply memb_false in H. rewrite H. reflexivity. Qed.
+
+Lemma fred_def_ext sd sd' tab j : zget j sd' = zget j sd -> fred_def sd' tab j = fred_def sd tab j.
+Proof. intros H. unfold fred_def, sd_get. rewrite H. reflexivity. Qed.
+Lemma wred_def_ext sd sd' tab j : zget j sd' = zget j sd -> wred_def sd' tab j = wred_def sd tab j.
+Proof. intros H. unfold wred_def, sd_get. rewrite H. reflexivity. Qed.
+
+(* ContractionCosts.remove: the table is mapped by row_remove, every derived field
+   keeps its from-scratch definition, nslices is multiplied by the dimension *)
+Theorem remove_spec ix c c' : Inv c -> remove ix c = Some c' ->
+  let d := zget ix (c_sd c) in
+  zd_get ix (c_sd c) = Some d /\
+  c_tab c' = map (row_remove ix d) (c_tab c) /\ c_sd c' = zd_del ix (c_sd c) /\
+  c_nsl c' = c_nsl c * d /\ c_orig c' = c_orig c /\ Inv c'.
+Proof.
+  intros (Hrows & Hpos & HND & Hder) Hrem. cbn zeta. unfold remove in Hrem.
+  destruct (zd_get ix (c_sd c)) as [d|] eqn:Ed; [|discriminate].
+  pose proof (zd_get_zget ix (c_sd c) d Ed) as Hd. cbn [c_where set_nsl] in Hrem.
+  destruct (wh_get ix (c_where c)) as [is|] eqn:Ew; [|discriminate].
+  injection Hrem as Hc'. subst d.
+  assert (Hixk : In ix (zd_keys (c_sd c))) by (apply zd_get_in_keys; congruence).
+  set (P := fun j => In j (zd_keys (c_sd c)) /\ j <> ix).
+  set (c1 := set_where (wh_del ix (c_where c)) (set_nsl (c_nsl c * zget ix (c_sd c)) c)).
+  assert (Ec : c' = let c2 := fold_left (remove_at ix (zget ix (c_sd c))) is c1 in
+               set_wred (zd_del ix (c_wred c2)) (set_fred (zd_del ix (c_fred c2)) (set_sd (zd_del ix (c_sd c2)) c2)))
+    by (rewrite <- Hc'; reflexivity).
+  clear Hc'.
+  destruct Hder as (Dfl & Dmc & Dne & Dj).
+  assert (D1 : derived_on (c_tab c1) P c1).
+  { unfold c1, derived_on. cbn. split; [exact Dfl|]. split; [exact Dmc|]. split; [apply wh_nonempty_del, Dne|].
+    intros j [Hj Hne]. destruct (Dj j Hj) as (E1 & E2 & E3 & E4). split; [exact E1|]. split; [exact E2|].
+    unfold where_ok, wh_get0. rewrite wh_get_del_other by exact Hne. split; [exact E3|exact E4]. }
+  destruct (Dj ix Hixk) as (_ & _ & Wnd & Win). unfold wh_get0 in Wnd, Win. rewrite Ew in Wnd, Win.
+  assert (Htab1 : c_tab c1 = mid ix (zget ix (c_sd c)) is (c_tab c)).
+  { unfold c1. cbn. apply nth_error_ext. intros k. rewrite nth_error_mid.
+    destruct (nth_error (c_tab c) k) as [r|] eqn:Er; [|reflexivity]. cbn [option_map].
+    destruct (memb k is) eqn:Em; [reflexivity|]. f_equal. symmetry. apply row_remove_notin.
+    intros Hin. apply memb_false in Em. apply Em, Win. exists r. split; assumption. }
+  pose proof (remove_fold P ix (c_sd c) (c_tab c) Hpos Hrows (fun j Hj => proj2 Hj) is c1 Wnd
+                (fun i Hi => proj1 (Win i) Hi) eq_refl Htab1 D1) as Hf. cbn zeta in Hf.
+  destruct Hf as (T2 & S2 & W2 & N2 & O2 & D2).
+  change (c_sd c1) with (c_sd c) in *.
+  set (c2 := fold_left (remove_at ix (zget ix (c_sd c))) is c1) in *.
+  cbn zeta in Ec. subst c'.
+  cbn [c_tab c_sd c_nsl c_orig set_wred set_fred set_sd].
+  split; [reflexivity|]. split; [exact T2|]. split; [rewrite S2; reflexivity|].
+  split; [rewrite N2; reflexivity|]. split; [rewrite O2; reflexivity|].
+  unfold Inv. cbn [c_tab c_sd c_nsl c_orig c_flops c_sizes c_fred c_wred c_where set_wred set_fred set_sd].
+  rewrite S2, T2.
+  assert (Hd : 0 < zget ix (c_sd c)) by (apply sd_pos_zget, Hpos).
+  split; [|split; [apply sd_pos_del, Hpos|split; [apply zd_keys_del_nodup, HND|]]].
+  - apply Forall_map. rewrite Forall_forall in *. intros r Hr.
+    destruct (row_remove_ok (c_sd c) ix r (Hrows r Hr) Hd) as ((N1 & N2' & Hincl & Hf & Hs) & Hni).
+    repeat split; try assumption.
+    + rewrite Hf. symmetry. apply size_of_del, Hni.
+    + rewrite Hs. symmetry. apply size_of_del. intros H. apply Hni, Hincl, H.
+  - destruct D2 as (F2 & M2 & Ne2 & J2). unfold derived_on.
+    cbn [c_tab c_sd c_flops c_sizes c_fred c_wred c_where set_wred set_fred set_sd].
+    rewrite T2 in *. split; [exact F2|]. split; [exact M2|]. split; [exact Ne2|].
+    intros j Hj.
+    assert (Hj0 : In j (zd_keys (c_sd c))) by (apply (zd_keys_del_in ix), Hj).
+    assert (Hne : j <> ix).
+    { intros ->. apply zd_get_in_keys in Hj. apply Hj, zd_get_del_same, HND. }
+    destruct (J2 j (conj Hj0 Hne)) as (E1 & E2 & E3). rewrite S2 in E1, E2.
+    split; [|split; [|exact E3]].
+    + rewrite zd_get0_del_other by exact Hne. rewrite E1. symmetry. apply fred_def_ext, zget_del_other, Hne.
+    + rewrite zd_get0_del_other by exact Hne. rewrite E2. symmetry. apply wred_def_ext, zget_del_other, Hne.
+Qed.
